@@ -21,12 +21,15 @@ Proof.
   - apply (covered_ext D t). + apply slot_insert_other. exact E. + apply Hcov.
 Qed.
 
-(* a status-only write by another writer: the same object is re-inserted at a new revision *)
+(* a status-only write by another writer: the object is re-inserted at a new revision with the other
+   writer's data changed (key and our status kept) *)
 Lemma restamp_covers : forall D t c res q o r, c <= t_rev t -> slot_of t (o_pk o) = Some (Live o r) ->
-  (forall pk, covered D t c res q pk) -> forall pk, covered D (t_insert t o) c res q pk.
+  (forall pk, covered D t c res q pk) -> forall pk, covered D (t_insert t (bump_aux o)) c res q pk.
 Proof.
   intros D t c res q o r Hc Hs Hcov pk. destruct (N.eq_dec pk (o_pk o)) as [E|E].
-  - subst pk. specialize (Hcov (o_pk o)). unfold covered in *. rewrite slot_insert_same. rewrite Hs in Hcov.
+  - subst pk. specialize (Hcov (o_pk o)). unfold covered in *.
+    change (o_pk o) with (o_pk (bump_aux o)) at 1. rewrite slot_insert_same. rewrite Hs in Hcov.
+    change (o_kind (bump_aux o)) with (o_kind o).
     destruct (o_kind o); try exact I; try (left; lia). exact Hcov.
   - apply (covered_ext D t). + apply slot_insert_other. exact E. + apply Hcov.
 Qed.
